@@ -531,6 +531,8 @@ type ModItem struct {
 	Comps []string // component patterns e.g. "reader.r" or "Call.*" or "ghost:fetched" or "elems"
 	At    Expr     // nil = anywhere
 	AtSrc string
+	After Expr // addresses allocated after this object
+	CallerFresh bool // (assumed, per call site) only memory allocated since the caller's entry
 	Elems Expr // for elems(slice)
 }
 
@@ -826,6 +828,18 @@ func (cs *Contracts) parseFile(path, pkg string) error {
 				for _, part := range splitTop(rest, ';') {
 					part = strings.TrimSpace(part)
 					mi := ModItem{}
+					if strings.HasSuffix(part, " caller-fresh") {
+						mi.CallerFresh = true
+						part = strings.TrimSpace(strings.TrimSuffix(part, " caller-fresh"))
+					}
+					if i := strings.Index(part, " after "); i >= 0 {
+						e, err := parseExpr(strings.TrimSpace(part[i+7:]))
+						if err != nil {
+							return fail(err)
+						}
+						mi.After = e
+						part = strings.TrimSpace(part[:i])
+					}
 					if i := strings.Index(part, " at "); i >= 0 {
 						mi.AtSrc = strings.TrimSpace(part[i+4:])
 						e, err := parseExpr(mi.AtSrc)
